@@ -46,7 +46,9 @@ func (c *RecvC[T]) refl() reflect.SelectCase {
 func (c *RecvC[T]) done(v reflect.Value, ok bool) {
 	c.OK = ok
 	if ok {
-		c.V = v.Interface().(T)
+		// Set through reflection: v.Interface().(T) would panic for a nil
+		// value of an interface-typed channel element.
+		reflect.ValueOf(&c.V).Elem().Set(v)
 	} else {
 		var z T
 		c.V = z
